@@ -148,7 +148,7 @@ def run_stream(state, stream, mode=0, file_backed=True):
         ae = applicationentity.ClientAE('VERIF')
         kw = dict(store_in_file=frozenset([convs.STORE_UID]), get_file_cb=ae.get_file,
                   accepted_contexts=contexts())
-    sim = simnet.Sim(role, actions, budget=40000, **kw)
+    sim = simnet.Sim(role, actions, budget=6000 + 60 * len(actions), **kw)
     sim.run()
     # state reached by the prefix (sanity of the harness, not of the library)
     snaps = [s for s in sim.snaps if s['next'] == n_prefix]
@@ -234,6 +234,11 @@ def corpus_streams():
     out.append(('huge-length', b'\x04\x00\xff\xff\xff\xff' + b'\x00' * 20))
     out.append(('short-abort', b'\x07\x00\x00\x00\x00\x02\x00\x00'))
     out.append(('short-rq', b'\x01\x00\x00\x00\x00\x0a' + b'\x00' * 10))
+    # valid traffic, but a lot of it at once: the local user has not fetched anything yet when the peer is done
+    echo = refpdu.enc_pdu(convs.echo_rq(1))
+    out.append(('flood-300-echo', echo * 300))
+    out.append(('flood-600-echo+garbage', echo * 600 + convs.UNKNOWN_PDU))
+    out.append(('flood-1500-echo', echo * 1500))
     return out
 
 
@@ -244,7 +249,9 @@ def run_mutators(ctx, job):
         if i % job['of'] != job['part']:
             continue
         for si, state in enumerate(STATE_NAMES):
-            if not job['all_states'] and (i + si) % 2:
+            if name.startswith('flood-') and state not in ('Sta6-acc', 'Sta6-req', 'Sta7', 'Sta2-accepting'):
+                continue
+            if not job['all_states'] and (i + si) % 2 and not name.startswith('flood-'):
                 continue
             do_case(ctx, state, stream, (i + si) % 4, 'mutator:' + name.split(':')[-1].split('@')[0].split('=')[0], name)
 
